@@ -36,6 +36,7 @@ class CFG:
         self.func = func
         self.nodes = []
         self.succ = {}
+        self.exc_edges = set()
         self.pred = {}
         self.entry = self._new('entry')
         self.exit = self._new('exit')
@@ -85,6 +86,7 @@ class CFG:
         if in_try or has_yield:
             for t in self._exc_targets():
                 self._edge(node, t)
+                self.exc_edges.add((node, t))
 
     def _stmt(self, st, preds):
         if isinstance(st, ast.If):
@@ -274,6 +276,10 @@ class CFG:
             if n is dst:
                 return True
             if n in avoid:
+                # a statement that raises has not taken effect: its
+                # exceptional successors are reached without it
+                stack.extend(t for t in self.succ[n]
+                             if (n, t) in self.exc_edges)
                 continue
             stack.extend(self.succ[n])
         return False
